@@ -1,7 +1,8 @@
-(** C09 -- property theorems only.  Model: GridPhys.v (t2grid with the physical payload). *)
-From Coq Require Import Ascii String List Bool PArith NArith FMapPositive Permutation.
+(** C09 -- property theorems only.  Models: GridPhys.v (t2grid with the physical payload as tokens: reorder,
+    rename_blocks) and MincModel.v (heap of objects with rational volumes / distances / areas: minc, __add__, embed). *)
+From Coq Require Import Ascii String List Bool PArith NArith ZArith QArith FMapPositive Permutation.
 From PTBase Require Import Exn PyStr.
-From P Require Import Assoc GridPhys PhysLemmas PhysProofs.
+From P Require Import Assoc GridPhys PhysLemmas PhysProofs PhysCompose MincModel MincLemmas MincProofs MincThms EmbedProofs MincBuild.
 Import ListNotations.
 Open Scope list_scope.
 
@@ -37,3 +38,109 @@ Theorem example_reversal : exists g g', run empty ops1 = Ok g /\ reorder g [] [(
                             s_dir := tok "3"; s_cos := tok "1.0"; s_nad0 := tok "None"; s_nad1 := tok "None" |}.
 Proof. exact reversal_moves_payload. Qed.
 Print Assumptions example_reversal.
+
+(** compositions: after ANY finite sequence of rename_blocks (one-to-one maps) and reorder calls (each naming every
+    block and connection once, connections in either orientation) the block and connection lists are permutations
+    of the original ones, every block has its composed new name and its old volume / rock type / centre, the composed
+    relabelling is one-to-one on the grid's block names, and every connection has its relabelled signature with the
+    two ends swapped some number of times *)
+Theorem edits_preserve_physics : forall ops g g', NoDup (blist g) -> NoDup (clist g) -> pre_all g ops -> run g ops = Ok g' ->
+  Permutation (blist g) (blist g') /\ Permutation (clist g) (clist g') /\
+  (forall i, In i (blist g) -> bsig g' i = (relab ops (bn g i), bv g i, rn g (br g i), bc g i)) /\
+  (forall i i', In i (blist g) -> In i' (blist g) -> relab ops (bn g i) = relab ops (bn g i') -> bn g i = bn g i') /\
+  (forall j, In (c0 g j) (blist g) -> In (c1 g j) (blist g) -> exists k, csig g' j = swaps k (relabel_f (relab ops) (csig g j))).
+Proof. exact edits_physics. Qed.
+Print Assumptions edits_preserve_physics.
+(** ... which for a cosine token that is its own double negation (a number or None) is: the relabelled signature,
+    or the relabelled signature listed the other way round *)
+Theorem edits_preserve_physics_two_way : forall ops g g', NoDup (blist g) -> NoDup (clist g) -> pre_all g ops -> run g ops = Ok g' ->
+  forall j, In (c0 g j) (blist g) -> In (c1 g j) (blist g) -> cos_ok (co g j) ->
+    csig g' j = relabel_f (relab ops) (csig g j) \/ csig g' j = swap_sig (relabel_f (relab ops) (csig g j)).
+Proof. exact edits_physics_two_way. Qed.
+Print Assumptions edits_preserve_physics_two_way.
+Theorem example_edits :
+  NoDup (blist ex_g) /\ NoDup (clist ex_g) /\ pre_all ex_g ex_edits /\ (exists g', run ex_g ex_edits = Ok g') /\
+  In (c0 ex_g 4%positive) (blist ex_g) /\ In (c1 ex_g 4%positive) (blist ex_g) /\ cos_ok (co ex_g 4%positive) /\
+  relab ex_edits (tok "  a 1") = tok "  a 2" /\ relab ex_edits (tok "  a 2") = tok "  a 1".
+Proof. exact edits_instance. Qed.
+Print Assumptions example_edits.
+
+(** MINC, for every naming function pair, every geometry (d, a), every cut-off, every fraction list, every
+    selection of distinct names of blocks of a well-formed grid.
+    minc_volume_split: a processed block (selected, 0 < V < atmos_volume) has, afterwards, continuum k (the block
+    itself for k = 0, the block named matrix_blockname(n, k) above) of volume V * fraction_k / sum(fractions), exactly,
+    for every k; and these volumes add up to V. *)
+Theorem minc_volume_split : forall mbname mrname dd aa atm h t fr blocks h' t', wf h t ->
+  NoDup (selection h t blocks) -> (forall n, In n (selection h t blocks) -> tbget t n <> None) ->
+  minc mbname mrname dd aa atm h t fr blocks = Ok (h', t') ->
+  forall n i, In n (selection h t blocks) -> tbget t n = Some i -> (0 < kvol h i)%Q -> (kvol h i < atm)%Q ->
+    (forall k, (k < length fr)%nat -> vol_named h' t' (cname mbname n k) = (kvol h i * (nth k fr 0 / sumQ fr))%Q) /\
+    (~ (sumQ fr == 0)%Q -> (sumQ (map (fun k => vol_named h' t' (cname mbname n k)) (seq 0 (length fr))) == kvol h i)%Q).
+Proof. exact minc_split. Qed.
+Print Assumptions minc_volume_split.
+(** minc_chain: the complete block list and connection list afterwards.  Blocks: the original ones in place (processed
+    ones with the fracture fraction of their volume and the level-0 rock name), then per processed block, in selection
+    order, its matrix blocks level 1 .. L-1 with (name, V * fraction, level rock name, the block's centre).
+    Connections: the old ones with unchanged signatures, then per processed block exactly the chain
+    (continuum k-1, continuum k, d[k-1], d[k], V * a[k-1], direction 1, no gravity cosine), k = 1 .. L-1. *)
+Theorem minc_chain : forall mbname mrname dd aa atm h t fr blocks h' t', wf h t ->
+  NoDup (selection h t blocks) -> (forall n, In n (selection h t blocks) -> tbget t n <> None) ->
+  minc mbname mrname dd aa atm h t fr blocks = Ok (h', t') ->
+  let sel := selection h t blocks in let vfs := normalise fr in
+  wf h' t' /\
+  map (qbsig h') (t_bl t') = map (frac_sig mrname atm vfs h t sel) (t_bl t) ++
+                             flat_map (matrix_level_sigs mbname mrname vfs h t) (processed_names atm h t sel) /\
+  map (qcsig h') (t_cl t') = map (qcsig h) (t_cl t) ++ flat_map (chain_level_sigs mbname dd aa vfs h t) (processed_names atm h t sel).
+Proof. exact minc_lists. Qed.
+Print Assumptions minc_chain.
+(** minc_partial: blocks not selected or outside 0 < V < atmos_volume are the same records afterwards
+    (connection_name included); so are all existing connections and rock types *)
+Theorem minc_partial : forall mbname mrname dd aa atm h t fr blocks h' t', wf h t ->
+  NoDup (selection h t blocks) -> (forall n, In n (selection h t blocks) -> tbget t n <> None) ->
+  minc mbname mrname dd aa atm h t fr blocks = Ok (h', t') ->
+  (forall i, In i (t_bl t) -> ~ In (kname h i) (selection h t blocks) \/ ~ ((0 < kvol h i)%Q /\ (kvol h i < atm)%Q) -> bk h' i = bk h i) /\
+  (forall j, In j (t_cl t) -> cx h' j = cx h j) /\
+  (forall x, (x < hnext h)%positive -> rk h' x = rk h x).
+Proof. exact minc_untouched_blocks. Qed.
+Print Assumptions minc_partial.
+(** with blocks = None the selection (all block names of a well-formed grid) meets the side conditions *)
+Theorem minc_default_selection_ok : forall h t, wf h t ->
+  NoDup (selection h t []) /\ (forall n, In n (selection h t []) -> tbget t n <> None).
+Proof. exact selection_all_ok. Qed.
+Print Assumptions minc_default_selection_ok.
+(** grids built object by object under distinct names are well-formed (the hypothesis [wf] is what t2grid maintains) *)
+Theorem built_grids_wf : forall ops h t h' t', wf h t -> grun_fresh h t ops = true -> grun h t ops = Ok (h', t') -> wf h' t'.
+Proof. exact grun_wf. Qed.
+Print Assumptions built_grids_wf.
+Theorem example_minc :
+  wf ex_h ex_t /\ NoDup (selection ex_h ex_t []) /\ (forall n, In n (selection ex_h ex_t []) -> tbget ex_t n <> None) /\
+  minc default_mbname default_mrname ex_dd ex_aa ex_atm ex_h ex_t [1; 3] [] = Ok (ex_h', ex_t') /\
+  map (fun n => Qred (vol_named ex_h' ex_t' (tk n))) ["ATM 0"; "  a 1"; "1 a 1"; "  a 2"; "1 a 2"]%string =
+    [10000000000000000000000000 # 1; 125; 375; 200; 600] /\
+  map (fun j => (kname ex_h' (o_b0 (cx ex_h' j)), kname ex_h' (o_b1 (cx ex_h' j)))) (t_cl ex_t') =
+    [(tk "  a 1", tk "ATM 0"); (tk "  a 2", tk "  a 1"); (tk "  a 1", tk "1 a 1"); (tk "  a 2", tk "1 a 2")] /\
+  map (fun i => x_name (rk ex_h' (k_rock (bk ex_h' i)))) (t_bl ex_t') = [tk "dfalt"; tk "dfalt"; tk "dfalt"; tk "Xfalt"; tk "Xfalt"].
+Proof. exact minc_instance. Qed.
+Print Assumptions example_minc.
+
+(** embed: when it returns a grid (host block larger than the sub-grid, no common block name) the result lists the
+    blocks of both grids, its total volume is the total volume of self, and the block filed under the host's name has
+    lost exactly the sub-grid's volume *)
+Theorem embed_conserves_volume : forall h self sub cj h' r,
+  NoDup (names_of h (t_bl self)) -> NoDup (names_of h (t_bl sub)) ->
+  embed h self sub cj = Ok (h', Some r) ->
+  t_bl r = t_bl self ++ t_bl sub /\
+  (total_volume h' r == total_volume h self)%Q /\
+  (total_volume h sub < kvol h (o_b0 (cx h cj)))%Q /\
+  exists ih, tbget r (kname h (o_b0 (cx h cj))) = Some ih /\ In ih (t_bl r) /\
+             kvol h' ih = (kvol h ih - total_volume h sub)%Q /\ (forall x, x <> ih -> kvol h' x = kvol h x).
+Proof. exact embed_spec. Qed.
+Print Assumptions embed_conserves_volume.
+Theorem example_embed :
+  NoDup (names_of ex_h3 (t_bl ex_t)) /\ NoDup (names_of ex_h3 (t_bl ex_sub)) /\
+  embed ex_h3 ex_t ex_sub ex_cj = Ok (ex_h4, Some ex_r) /\
+  Qred (total_volume ex_h3 ex_t) = Qred (total_volume ex_h4 ex_r) /\
+  Qred (vol_named ex_h4 ex_r (tk "  a 1")) = 400 /\ Qred (vol_named ex_h4 ex_r (tk "sub 1")) = 100 /\
+  names_of ex_h4 (t_bl ex_r) = [tk "ATM 0"; tk "  a 1"; tk "  a 2"; tk "sub 1"].
+Proof. exact embed_instance. Qed.
+Print Assumptions example_embed.
